@@ -24,7 +24,7 @@ from props import _session
 from sched import linesched as LS
 
 PROPERTY = "C06"
-LEAN_MODULES = ["LccModel.Props.C06"]
+LEAN_MODULES = ["LccModel.Props.C06", "LccModel.Proto", "LccModel.ProtoReport"]   # the last two: what drivers/C06.lean imports besides the models
 PROPS_FILES = ["LccModel/Props/C06.lean"]
 NAMESPACES = {"LccModel/Props/C06.lean": "LccModel.C06"}
 DRIVER = "drivers/C06.lean"
